@@ -33,6 +33,37 @@ theorem and_7 (n : Nat) : n &&& 7 = n % 8 := and_low n 7 3 (by decide)
 theorem shr_div (n k : Nat) : n >>> k = n / 2 ^ k := Nat.shiftRight_eq_div_pow n k
 theorem shl_mul (n k : Nat) : n <<< k = n * 2 ^ k := Nat.shiftLeft_eq n k
 
+/-- a field selected IN PLACE and then moved (`(x & (m << k)) << s`) is the field extracted and then placed
+    (`((x >> k) & m) << (k + s)`), for a low mask `m = 2^j - 1` -/
+theorem field_in_place (x m j k s : Nat) (h : m + 1 = 2 ^ j) :
+    (x &&& (m <<< k)) <<< s = ((x >>> k) &&& m) <<< (k + s) := by
+  have hm : m = 2 ^ j - 1 := by omega
+  subst hm
+  apply Nat.eq_of_testBit_eq
+  intro i
+  simp only [Nat.testBit_shiftLeft, Nat.testBit_and, Nat.testBit_shiftRight, Nat.testBit_two_pow_sub_one]
+  by_cases h1 : k + s ≤ i
+  · have e1 : s ≤ i := by omega
+    have e2 : k ≤ i - s := by omega
+    have e3 : k + (i - (k + s)) = i - s := by omega
+    have e4 : i - s - k = i - (k + s) := by omega
+    simp [h1, e1, e2, e3, e4]
+  · by_cases h2 : s ≤ i
+    · have e2 : ¬ k ≤ i - s := by omega
+      simp [h1, h2, e2]
+    · simp [h1, h2]
+
+theorem field_in_place_15 (x k s : Nat) : (x &&& (32767 <<< k)) <<< s = ((x >>> k) &&& 32767) <<< (k + s) :=
+  field_in_place x 32767 15 k s (by decide)
+theorem field_in_place_3 (x k s : Nat) : (x &&& (7 <<< k)) <<< s = ((x >>> k) &&& 7) <<< (k + s) :=
+  field_in_place x 7 3 k s (by decide)
+theorem field_in_place_12 (x k s : Nat) : (x &&& (4095 <<< k)) <<< s = ((x >>> k) &&& 4095) <<< (k + s) :=
+  field_in_place x 4095 12 k s (by decide)
+theorem field_in_place_8 (x k s : Nat) : (x &&& (255 <<< k)) <<< s = ((x >>> k) &&& 255) <<< (k + s) :=
+  field_in_place x 255 8 k s (by decide)
+theorem field_in_place_16 (x k s : Nat) : (x &&& (65535 <<< k)) <<< s = ((x >>> k) &&& 65535) <<< (k + s) :=
+  field_in_place x 65535 16 k s (by decide)
+
 /-- an `if` whose test is equivalent to another test -/
 theorem ite_iff {α : Type} {c d : Prop} [Decidable c] [Decidable d] (h : c ↔ d) (a b : α) :
     (if c then a else b) = (if d then a else b) := by
